@@ -293,7 +293,7 @@ impl InterpDriver {
                 break;
             }
             *budget -= 1;
-            match rng.weighted(&[40, 14, 14, 10, if with_tx { 10 } else { 1 }, 3, 1, 12, 6]) {
+            match rng.weighted(&[40, 14, 14, 10, if with_tx { 10 } else { 1 }, 3, 1, 12, 6, 5]) {
                 0 => {
                     // targeted: k operands then an opcode
                     let op = *rng.pick(enabled);
@@ -321,7 +321,44 @@ impl InterpDriver {
                     }
                     out.push(json!(op));
                 }
+                1 if !reparsed && rng.chance(1, 8) => {
+                    // a constructed push bit the parsers never produce: the opcode and the payload length need not agree
+                    let n = *rng.pick(&[0usize, 1, 75, 76, 255, 256, 300, 520]);
+                    out.push(json!({"pd": *rng.pick(&[76u64, 76, 77, 78, 0, 81, 97, 118, 172, 255]), "d": hx(&rng.bytes(n))}));
+                }
                 1 => out.push(Self::push_bit(rng)),
+                9 => {
+                    // standard templates with right and wrong data: <x> DUP HASH160 <20> EQUALVERIFY [CHECKSIG],
+                    // <x> HASH160 <20> EQUAL, <x> SHA256 <32> EQUALVERIFY, <x> HASH256 <32> EQUAL
+                    let xl = *rng.pick(&[33usize, 33, 65, 20, 1, 0]);
+                    let x = rng.bytes(xl);
+                    let right = rng.chance(1, 2);
+                    if rng.chance(5, 6) {
+                        out.push(json!({"p": hx(&x)}));
+                    }
+                    let (hop, hname, hl) = *rng.pick(&[(169u64, "hash160", 20usize), (169, "hash160", 20), (168, "sha256", 32), (170, "sha256d", 32), (166, "ripemd160", 20), (167, "sha1", 20)]);
+                    let mut h = crate::scen_digest::ref_hash(hname, &x);
+                    if !right {
+                        match rng.below(3) {
+                            0 => h[0] ^= 1,
+                            1 => h = rng.bytes(hl),
+                            _ => {
+                                let l = *rng.pick(&[19usize, 21, 0, 32]);
+                                h = rng.bytes(l);
+                            }
+                        }
+                    }
+                    let p2pkh = hop == 169 && rng.chance(2, 3);
+                    if p2pkh {
+                        out.push(json!(118));
+                    }
+                    out.push(json!(hop));
+                    out.push(if rng.chance(1, 8) && !reparsed { json!({"pd": 76, "d": hx(&h)}) } else { json!({"p": hx(&h)}) });
+                    out.push(json!(if p2pkh || rng.chance(1, 2) { 136 } else { 135 }));
+                    if p2pkh && rng.chance(1, 2) {
+                        out.push(json!(*rng.pick(&[172u64, 173])));
+                    }
+                }
                 2 => {
                     // conditional
                     if depth >= 6 {
@@ -582,6 +619,38 @@ impl Scenario for InterpDriver {
         let via_bytes = rng.chance(1, 4);
         let valid_pct = *rng.pick(&[20u64, 50, 80, 95]);
         let mut prog = Self::gen_block(rng, &enabled, 0, &mut budget, &mut growth, with_tx, with_tx || via_bytes, valid_pct);
+        if !with_tx && rng.chance(1, 200) {
+            // many items first: stack depths around the historical limits (201 operations, 500, 1000 stack items), built from
+            // opcode pushes, data pushes and alt-stack moves, then the random program on top of that state
+            let k = (*rng.pick(&[200i64, 201, 202, 499, 500, 501, 999, 1000, 1000, 1001]) + *rng.pick(&[0i64, 0, 0, -1, 1])) as usize;
+            let style = rng.below(3);
+            let mut head: Vec<Value> = vec![];
+            let mut items = 0usize;
+            while items < k {
+                match style {
+                    0 => head.push(json!(81)),
+                    1 => head.push(json!({"p": hx(&[(items % 200) as u8 + 1])})),
+                    _ => {
+                        head.push(json!(81));
+                        if rng.chance(1, 3) {
+                            head.push(json!(107));
+                        }
+                    }
+                }
+                items += 1;
+            }
+            // what comes first on the full stack matters: one of each kind of producer
+            head.push(match rng.below(6) {
+                0 => json!({"p": "aabb"}),
+                1 => json!({"pd": 76, "d": "cc"}),
+                2 => json!(118),
+                3 => json!(116),
+                4 => json!(82),
+                _ => json!(108),
+            });
+            head.extend(prog);
+            prog = head;
+        }
         // spends: most transaction-context programs start with a real unlocking script / locking head
         let mut split_at: Option<usize> = None;
         if with_tx && rng.chance(3, 4) {
